@@ -20,8 +20,8 @@ SEGS_QUICK = [("whole",), ("bytes",), ("crlf",), ("cut", 3), ("cut", 5), ("early
 MC = {
     ("C01", "quick"): ["MC_C01_quick", "MC_C01_reent"],
     ("C01", "thorough"): ["MC_C01_quick", "MC_C01_reent", "MC_C01_thorough"],
-    ("C02", "quick"): ["MC_C02_quick", "MC_C02_other", "MC_C02_adder", "MC_C02_killer"],
-    ("C02", "thorough"): ["MC_C02_quick", "MC_C02_other", "MC_C02_adder", "MC_C02_killer", "MC_C02_names", "MC_C02_thorough"],
+    ("C02", "quick"): ["MC_C02_quick", "MC_C02_other", "MC_C02_adder", "MC_C02_killer", "MC_C02_empty"],
+    ("C02", "thorough"): ["MC_C02_quick", "MC_C02_other", "MC_C02_adder", "MC_C02_killer", "MC_C02_empty", "MC_C02_names", "MC_C02_thorough"],
     ("C03", "quick"): ["MC_C03_quick", "MC_C03_closer"],
     ("C03", "thorough"): ["MC_C03_quick", "MC_C03_closer", "MC_C03_thorough"],
 }
